@@ -33,6 +33,9 @@ CLAIMS = {
     "C18": dict(cat="other", ref="DESIGN.md 5/C18",
         text="partial: the 'leaves nothing behind' clause. If the zone lock was obtained, Schedule._get_schedule and set_schedule release it on every exit (normal, error from any send or version query, cancellation by the caller's timeout): proved by symbolic execution of the real coroutine with every await allowed to raise (two fragment exchanges unrolled) and by a syntactic try/finally obligation covering any number of exchanges",
         note="trusted: pyvc semantics, z3; tcs._obtain_lock, _schedule_version, async_send_cmd, Message() and _update_payload_set are contracts; NOT decided: loss/timeout patterns, that a returned schedule is never stitched from two versions, concurrent transfers"),
+    "C19": dict(cat="other", ref="DESIGN.md 5/C19",
+        text="the map contracts of FaultLog._insert_into_map (null entry, reported entry at the reported position, strictly newest-first, nothing invented, positions within 0..62, read-through step, push-down), handle_msg/_process_msg (never raises, map timestamps always have their log entry) and the four views (never raise) are SMT-discharged on the real functions for views of at most 3 entries with unbounded indexes/timestamps; the inductive clause ('no entry believed lower than it is') and the push-down clause fail on the unchanged tree and are listed known findings with input classes outside which they are re-proved",
+        note="bounded in one dimension: the number of entries of the view (<= 3; the shift heuristic only compares relative positions); trusted: pyvc semantics, z3; FaultLogEntry.from_msg by contract; timestamps are integers (the code only compares them); NOT decided: get_faultlog's request loop (_is_getting / _is_current flags), whole histories"),
 }
 
 NA = {
